@@ -296,9 +296,14 @@ def run_model(ctx, prop, stream, cases, results):
         shutil.rmtree(d, ignore_errors=True)
 
 
-def model_values(ctx, stream, cases, limit=3):
+def model_values(ctx, stream, cases, limit=3, results=None):
     """Raw text of the model's observation on a few cases (for replay files)."""
-    rows = [(stream["coq_input"](c), "VNone") for c in cases[:limit]]
+    if "coq_input_r" in stream:
+        if results is None:
+            return "not shown: the model input of this stream depends on the implementation's result"
+        rows = [(stream["coq_input_r"](c, r), "VNone") for c, r in list(zip(cases, results))[:limit]]
+    else:
+        rows = [(stream["coq_input"](c), "VNone") for c in cases[:limit]]
     d = ctx.scratch()
     try:
         path = os.path.join(d, "Cases_show_%s.v" % ctx.pid)
@@ -505,14 +510,14 @@ def run_check(pid, tier, seed, repo, replay=None):
                        "implementation_result": jsonable(r1[0] if r1 else None), "why": failing[i],
                        "other_failing_cases": len(fresh) - 1}
             if stream.get("coq_obs") and not merr:
-                payload["model_says"] = model_values(ctx, stream, [case], 1)
+                payload["model_says"] = model_values(ctx, stream, [case], 1, r1[:1] if r1 else None)
             violations.append(("input", payload, True))
         if unpinned_mism:
             i = unpinned_mism[0]
             payload = {"property": pid, "kind": "correspondence-broken", "stream": sname,
                        "why": "model and implementation disagree on an observable no theorem pins",
                        "case": jsonable(cases[i]), "implementation_result": jsonable(results[i]),
-                       "model_says": model_values(ctx, stream, [cases[i]], 1), "disagreements": len(unpinned_mism)}
+                       "model_says": model_values(ctx, stream, [cases[i]], 1, [results[i]]), "disagreements": len(unpinned_mism)}
             violations.append(("corr", payload, False))
         nt = stream.get("nontrivial", lambda c, r: not isinstance(r, Err))
         for c, r in zip(cases, results):
